@@ -624,6 +624,24 @@ def call_builtin(ex, name, args, kwargs):
             T = exprs.theory(ex)
             return VBool(T.has_zero(args[0].seq.t))
         raise OutOfSubset(f"{name}() over an expression test")
+    if name == "map" and len(args) == 2 and isinstance(args[0], VFunc) and args[0].kind == "y0":
+        # map(f, collection) for a y0 function f under contract: f's precondition and exceptions are checked for an arbitrary
+        # element (the element constants are free, i.e. universally quantified); the results form a lazily described collection
+        f, coll = args
+        out = []
+        for consts, guard, elt in ex.comp_alts(coll):
+            ex.binders.extend(consts)
+            n0 = len(ex.pc)
+            ex.pc.append(guard)
+            try:
+                r = ex.apply(f, [elt], {})
+            finally:
+                del ex.pc[n0:]
+                del ex.binders[len(ex.binders) - len(consts):]
+            out.append((list(consts), guard, r))
+        c = VComp(None, None, None, kind="gen")
+        c.alts = out
+        return c
     if name in ("set", "frozenset", "list", "tuple"):
         if not args:
             s = empty_set(kind="list" if name in ("list", "tuple") else "set")
